@@ -55,6 +55,20 @@ CHECKS["C07"] = (
     "through the bilinear-transform identity.",
     "Trusts mpmath.expm at 40 digits; known finding F11 (I2 in the Pade-13 branch for ill-conditioned A) "
     "is excluded by signature and counted.", "3/C07")
+CHECKS["C01"] = (
+    "Hypothesis-generated modal systems by damping regime (atoms on every coefficient-formula switch) in "
+    "diagonal, non-proportionally damped and physically coupled forms; reference = 40-digit mpmath exact "
+    "one-step map propagated in mpmath; differential SolveUnc vs SolveExp2 vs SolveExp1; option metamorphics",
+    "Generated-input search: each case is a list of modes with regime labels (undamped / damped rigid body "
+    "around both cut-offs, under-, near-critically, critically and over-damped, residual flexibility), "
+    "random forces and initial conditions, order 0/1 and every option combination (m None/1-D/2-D, "
+    "explicit/auto rb, permuted order, static_ic, pre_eig on physically coupled matrices). d, v, a of all "
+    "three exact solvers are compared with a closed-form reference computed at 40 digits, with tolerances "
+    "graded by the documented conditioning (pole spacing times h, eigenvector condition, cut-off models), "
+    "plus the equation-of-motion residual.",
+    "Trusts mpmath.expm; SolveUnc's uncoupled path is out of scope below x = 1e-3 (property statement); "
+    "repeated eigenvalues are not generated for the complex-eigen path (documented limitation); physical "
+    "forms carry a cond(Phi)^2 factor because the solver sees rounded transformed matrices.", "3/C01")
 
 NOT_APPLICABLE = {
 }
